@@ -17,6 +17,9 @@
 //	R. (pair.go) the real pair again: the configuration is reloaded (proxy added / removed / remote port changed / visitor
 //	   added, through Service.UpdateAllConfigurer) while frpc sits in its login back-off during an outage (listener down,
 //	   refusal, server restart, black hole); the recovered session must run the LAST configuration at both ends.
+//	L. (livepeer.go) live peers with slow requests: three scripted sessions ping every second on a server with timeout
+//	   3 / 5 s while one of them has xtcp visitor requests pending whose owner never answers (10 s each) and bursts of
+//	   registrations; none may be torn down for 2x timeout + 3 s (control peer and lag sentinel guard the verdict).
 //	G. (backlog.go) server side again: a peer that stops reading while it floods requests (unread replies: frps's send
 //	   queue and buffers full, its read loop parked in Send), then falls silent: session and port must still go away.
 //	F. (pair.go) a loss frps does not notice (connections frozen, no FIN / RST; frps timeout 90 s), then 1-2 refused
@@ -89,7 +92,7 @@ type caseRef struct {
 func main() {
 	defer h.DisableGC(10)()
 	run = h.NewRun(prop, "fault_enumeration")
-	run.Rule = "one case = one fault sequence: (monitor family, heartbeat interval/timeout in {1/2,1/3,2/5}, tcpMux on/off, number of configured proxies in {1,20,150}, the moment at which the peer falls silent or the ordered list of faults with their PRNG-chosen durations); distinct = distinct (family, interval/timeout, mux, proxies, moment / fault-kind list); family G = unread-backlog silence x mux; family F = frozen loss + n refused logins x mux x timeout; family R = (outage kind, reload kind) pairs with the reload applied during the outage; family E adds interval = timeout in {1,2,3} (refused by validation, or the answered session must stay up); a case is non-trivial only if its session was established and at least one timed teardown or one recovery was observed"
+	run.Rule = "one case = one fault sequence: (monitor family, heartbeat interval/timeout in {1/2,1/3,2/5}, tcpMux on/off, number of configured proxies in {1,20,150}, the moment at which the peer falls silent or the ordered list of faults with their PRNG-chosen durations); distinct = distinct (family, interval/timeout, mux, proxies, moment / fault-kind list); family L = slow-request kind x mux x timeout; family G = unread-backlog silence x mux; family F = frozen loss + n refused logins x mux x timeout; family R = (outage kind, reload kind) pairs with the reload applied during the outage; family E adds interval = timeout in {1,2,3} (refused by validation, or the answered session must stay up); a case is non-trivial only if its session was established and at least one timed teardown or one recovery was observed"
 	run.Assumptions = []string{
 		"upper bounds are bounded-progress watchdogs: teardown 3x configured timeout + 10 s, recovery 50 s (20 s max login back-off x 1.1 + 10 s dial timeout + 15 s); later events would be reported as violations of the bounded restatement",
 		"lower bounds use the harness clock stamp taken before the last valid ping / pong (or login reply) was written, and the stamp taken after the close was observed: load can only widen the measured span",
@@ -106,8 +109,9 @@ func main() {
 	nC := run.N(24, 90)
 	nE := run.N(3, 6)
 	nR := run.N(8, 16)
-	nG := run.N(2, 6) // silent peers with an unread backlog
-	nF := run.N(2, 6) // frozen loss followed by a refused login
+	nL := run.N(4, 16) // live peers with slow requests
+	nG := run.N(2, 6)  // silent peers with an unread backlog
+	nF := run.N(2, 6)  // frozen loss followed by a refused login
 
 	// servers of family A: one per (timeout, mux)
 	for _, p := range hbPairs {
@@ -139,6 +143,9 @@ transport.maxPoolCount = 2
 		}
 		if i < nG {
 			plan = append(plan, caseRef{"G", i})
+		}
+		if i < nL {
+			plan = append(plan, caseRef{"L", i})
 		}
 		if i < nF {
 			plan = append(plan, caseRef{"F", i})
@@ -176,6 +183,8 @@ transport.maxPoolCount = 2
 			reloadCase(c, ref.k)
 		case "G":
 			backlogCase(c, ref.k)
+		case "L":
+			livePeerCase(c, ref.k)
 		case "F":
 			frozenRefusedCase(c, ref.k)
 		}
